@@ -58,19 +58,25 @@ Qed.
 
 (** ** label environments: for every open frame, the target all its [br] jumps will have in the
     final code; the second component excludes the [if]'s own jump (which lies before it) *)
-Definition lenv (s : cstate) (rho : list (Z * Z)) : Prop :=
-  Forall2 (fun j e => exists locs, j = JUnknown locs None /\
-                      forall loc, In loc locs -> snd e <= loc -> get_u32 c loc = fst e) (c_bp s) rho.
-Definition lows (rho : list (Z * Z)) (s : cstate) : Prop := Forall (fun e => snd e <= cur_off s) rho.
+Definition lenv1 (j : jump_target) (e : Z * Z) : Prop :=
+  (exists locs, j = JUnknown locs None /\ forall loc, In loc locs -> snd e <= loc -> get_u32 c loc = fst e)
+  \/ j = JKnown (fst e).
+Definition lenv (s : cstate) (rho : list (Z * Z)) : Prop := Forall2 lenv1 (c_bp s) rho.
+Definition lows (rho : list (Z * Z)) (s : cstate) : Prop :=
+  Forall (fun e => snd e <= cur_off s /\ 0 <= fst e < 4294967296) rho.
 
 Lemma lenv_sub bp s s' rho : c_bp s = bp -> bp_sub bp (c_bp s') -> lenv s' rho -> lenv s rho.
 Proof.
-  unfold lenv. intros -> H. revert rho. induction H as [|j j' b b' (locs & add & -> & ->)]; intros rho H2;
-    inversion H2 as [|? e ? rho' (l2 & E & Hl)]; subst; constructor; auto.
-  inversion E; subst. exists locs. split; [reflexivity|]. intros loc Hin Hlo. apply Hl; auto. apply in_or_app; auto.
+  unfold lenv. intros -> H. revert rho. induction H as [|j j' b b' Hj]; intros rho H2;
+    inversion H2 as [|? e ? rho' He]; subst; constructor; auto.
+  destruct Hj as [(locs & add & -> & ->)|(pos & -> & ->)]; [|exact He].
+  destruct He as [(l2 & E & Hl)|E]; [|discriminate E].
+  inversion E; subst. left. exists locs. split; [reflexivity|]. intros loc Hin Hlo. apply Hl; auto. apply in_or_app; auto.
 Qed.
 Lemma lows_mono rho s s' : lows rho s -> cur_off s <= cur_off s' -> lows rho s'.
 Proof. unfold lows. intros H Hle. eapply Forall_impl; [|exact H]. cbn. intros; lia. Qed.
+Lemma lows_nth rho s k e : lows rho s -> nth_error rho k = Some e -> snd e <= cur_off s /\ 0 <= fst e < 4294967296.
+Proof. unfold lows. intros H E. rewrite Forall_forall in H. apply H. eapply nth_error_In; eauto. Qed.
 
 Definition at_pc (pc : Z) : cstate :=
   {| c_out := repeat 0%N (Z.to_nat pc); c_bp := []; c_stack := []; c_next := 0; c_reuse := []; c_consts := []; c_last := None |}.
@@ -171,6 +177,16 @@ Lemma E_br_if f st l cv vs k : exec_instr (S f) st l (VI32 cv :: vs) (Basic (BBr
   if cv =? 0 then RNormal st l vs else RBr k st l vs.
 Proof. reflexivity. Qed.
 
+Lemma E_loop f st l vs bt body : exec_instr (S f) st l vs (Loop bt body) =
+  match exec_seq f st l [] body with
+  | RNormal s' l' vs' => RNormal s' l' (firstn (arity bt) vs' ++ vs)
+  | RBr O s' l' _ => exec_instr f s' l' vs (Loop bt body)
+  | RBr (S k) s' l' vs' => RBr k s' l' vs'
+  | r => r
+  end.
+Proof. reflexivity. Qed.
+Lemma E_unreachable f st l vs : exec_instr (S f) st l vs (Basic BUnreachable) = RTrap. Proof. reflexivity. Qed.
+
 Lemma exec_prefix bs tl : forall fuel st l vs, forallb straight_ok bs = true ->
   exec_seq fuel st l vs (map Basic bs ++ tl) = RFuel \/
   exec_seq fuel st l vs (map Basic bs ++ tl) =
@@ -199,8 +215,17 @@ Proof. induction bp as [|y r IH]; intros [|k] j x H; cbn in *; try discriminate;
 Lemma lenv_nth s rho k locs : lenv s rho -> nth_error (c_bp s) k = Some (JUnknown locs None) ->
   exists e, nth_error rho k = Some e /\ forall loc, In loc locs -> snd e <= loc -> get_u32 c loc = fst e.
 Proof.
-  unfold lenv. intros H. revert k. induction H as [|j e b r (l0 & -> & Hl)]; intros [|k] E; cbn in E; try discriminate.
-  - inversion E; subst. exists e. split; [reflexivity|exact Hl].
+  unfold lenv. intros H. revert k. induction H as [|j e b r He]; intros [|k] E; cbn in E; try discriminate.
+  - inversion E; subst. destruct He as [(l0 & E0 & Hl)|E0]; [|discriminate E0]. inversion E0; subst.
+    exists e. split; [reflexivity|exact Hl].
+  - apply IHForall2. exact E.
+Qed.
+Lemma lenv_nth_known s rho k pos : lenv s rho -> nth_error (c_bp s) k = Some (JKnown pos) ->
+  exists e, nth_error rho k = Some e /\ fst e = pos.
+Proof.
+  unfold lenv. intros H. revert k. induction H as [|j e b r He]; intros [|k] E; cbn in E; try discriminate.
+  - inversion E; subst. destruct He as [(l0 & E0 & Hl)|E0]; [discriminate E0|]. inversion E0; subst.
+    exists e. split; reflexivity.
   - apply IHForall2. exact E.
 Qed.
 
@@ -217,14 +242,15 @@ Proof.
   apply in_app_iff in H. cbn in H. rewrite in_app_iff. intuition.
 Qed.
 
-Lemma sim_br k s v v1 s1 rho st l vs M :
-  inv nl s v -> v_unreach v = None -> vstep cx v (OBasic (BBr k)) = Some v1 ->
+Lemma sim_br k locs s v v1 s1 rho st l vs M :
+  inv nl s v -> v_unreach v = None -> nth_error (c_bp s) k = Some (JUnknown locs None) ->
+  vstep cx v (OBasic (BBr k)) = Some v1 ->
   handle_opcode cx s v1 Reachable (OBasic (BBr k)) = Some s1 ->
   matches F s1 -> lenv s1 rho -> lows rho s -> rel s st l vs M ->
   sim_res rho M s1 (RBr k st l vs).
 Proof.
-  intros I Hu Ev Eh Hm Hle Hlo R.
-  destruct (op_br nl cx s v v1 s1 k I Hu Ev Eh) as (locs & Enth & O1 & O2 & O3 & O4 & O5 & O6 & I1 & Hu1 & X1).
+  intros I Hu Enth Ev Eh Hm Hle Hlo R.
+  destruct (op_br nl cx s v v1 s1 k locs I Hu Enth Ev Eh) as (O1 & O2 & O3 & O4 & O5 & O6 & I1 & Hu1 & X1).
   assert (Hc : code_at c (cur_off s) [IBr]).
   { apply (code_from_F s1 (c_out s) [IBr] (u32_bytes 0) Hm O1). intros j Hj. cbn in Hj.
     apply (pres_pending_new s s1 (cur_off s + 1)); [apply (i_bp _ _ _ I)| |lia|unfold in_win, cur_off; lia].
@@ -232,8 +258,7 @@ Proof.
   assert (Enth1 : nth_error (c_bp s1) k = Some (JUnknown (locs ++ [cur_off s + 1]) None)).
   { rewrite O2. eapply nth_error_update_nth; eauto. }
   destruct (lenv_nth s1 rho k _ Hle Enth1) as (e & Ee & He).
-  assert (Hlo_e : snd e <= cur_off s).
-  { unfold lows in Hlo. rewrite Forall_forall in Hlo. apply Hlo. eapply nth_error_In; eauto. }
+  assert (Hlo_e : snd e <= cur_off s) by apply (lows_nth _ _ _ _ Hlo Ee).
   assert (Ht : get_u32 c (cur_off s + 1) = fst e) by (apply He; [apply in_or_app; right; left; reflexivity|lia]).
   assert (H0 : 0 <= fst e) by (rewrite <- Ht; apply get_u32_nonneg).
   cbn. exists e, 1%nat, (set_pc M (fst e)).
@@ -252,16 +277,17 @@ Qed.
 Lemma pwf_idx s p : small NR s -> cwf nl s -> pwf nl s p -> -2147483648 <= provider_idx p < 2147483648.
 Proof. intros S W P. apply (idx_ok_of_pwf nl NR NR_small s p S (w_next _ _ W) P). Qed.
 
-Lemma sim_br_if k s v v1 s1 rho st l cv vs M :
-  inv nl s v -> v_unreach v = None -> vstep cx v (OBasic (BBrIf k)) = Some v1 ->
+Lemma sim_br_if k locs s v v1 s1 rho st l cv vs M :
+  inv nl s v -> v_unreach v = None -> nth_error (c_bp s) k = Some (JUnknown locs None) ->
+  vstep cx v (OBasic (BBrIf k)) = Some v1 ->
   handle_opcode cx s v1 Reachable (OBasic (BBrIf k)) = Some s1 ->
   matches F s1 -> lenv s1 rho -> lows rho s -> small NR s1 -> rel s st l (VI32 cv :: vs) M ->
   exists M1, nsteps 1 M = SNext M1 /\ frame_eq M M1 /\
     if cv =? 0 then rel s1 st l vs M1
     else exists e, nth_error rho k = Some e /\ 0 <= fst e /\ rel (at_pc (fst e)) st l [] M1.
 Proof.
-  intros I Hu Ev Eh Hm Hle Hlo Sm R.
-  destruct (op_br_if nl cx s v v1 s1 k I Hu Ev Eh) as (p & rest & locs & Es & Pp & Enth & O1 & O2 & O3 & O4 & O5 & O6 & I1 & Hu1 & X1).
+  intros I Hu Enth Ev Eh Hm Hle Hlo Sm R.
+  destruct (op_br_if nl cx s v v1 s1 k locs I Hu Enth Ev Eh) as (p & rest & Es & Pp & O1 & O2 & O3 & O4 & O5 & O6 & I1 & Hu1 & X1).
   assert (Hpend : forall q, (length (c_out s) <= q)%nat -> ~ in_win (cur_off s + 1) q -> ~ pending s1 q).
   { intros q Hq Hw. apply (pres_pending_new s s1 (cur_off s + 1)); auto; [apply (i_bp _ _ _ I)|].
     intros y Hy. rewrite O2 in Hy. eapply update_locs_in; eauto. }
@@ -288,14 +314,90 @@ Proof.
   - assert (Enth1 : nth_error (c_bp s1) k = Some (JUnknown (locs ++ [cur_off s + 1]) None)).
     { rewrite O2. eapply nth_error_update_nth; eauto. }
     destruct (lenv_nth s1 rho k _ Hle Enth1) as (e & Ee & He).
-    assert (Hlo_e : snd e <= cur_off s).
-    { unfold lows in Hlo. rewrite Forall_forall in Hlo. apply Hlo. eapply nth_error_In; eauto. }
+    assert (Hlo_e : snd e <= cur_off s) by apply (lows_nth _ _ _ _ Hlo Ee).
     assert (Ht : get_u32 c (cur_off s + 1) = fst e) by (apply He; [apply in_or_app; right; left; reflexivity|lia]).
     assert (H0 : 0 <= fst e) by (rewrite <- Ht; apply get_u32_nonneg).
     exists e. split; [exact Ee|]. split; [exact H0|]. rewrite Ht.
     eapply rel_jump; [exact R|reflexivity|apply cur_off_at_pc; exact H0].
 Qed.
 
+
+(** ** jumps to a loop label (the target is in the code already), unreachable *)
+Lemma no_new_pending s s1 q : bpwf s -> c_bp s1 = c_bp s -> (length (c_out s) <= q)%nat -> ~ pending s1 q.
+Proof.
+  intros B E Hq. apply (pres_pending_new s s1 (-10)); auto; [|unfold in_win; lia]. intros y Hy. right. rewrite <- E. exact Hy.
+Qed.
+
+Lemma sim_br_known k pos s v v1 s1 rho st l vs M :
+  inv nl s v -> v_unreach v = None -> nth_error (c_bp s) k = Some (JKnown pos) ->
+  vstep cx v (OBasic (BBr k)) = Some v1 ->
+  handle_opcode cx s v1 Reachable (OBasic (BBr k)) = Some s1 ->
+  matches F s1 -> lenv s1 rho -> lows rho s -> rel s st l vs M ->
+  sim_res rho M s1 (RBr k st l vs).
+Proof.
+  intros I Hu Enth Ev Eh Hm Hle Hlo R.
+  destruct (op_br_known nl cx s v v1 s1 k pos I Hu Enth Ev Eh) as (O1 & O2 & O3 & O4 & O5 & O6 & I1 & Hu1 & X1).
+  assert (Enth1 : nth_error (c_bp s1) k = Some (JKnown pos)) by (rewrite O2; exact Enth).
+  destruct (lenv_nth_known s1 rho k pos Hle Enth1) as (e & Ee & Epos).
+  destruct (lows_nth _ _ _ _ Hlo Ee) as [_ Hr]. rewrite Epos in Hr.
+  assert (Hc : code_at c (cur_off s) (IBr :: u32_bytes pos)).
+  { apply (code_from_F s1 (c_out s) (IBr :: u32_bytes pos) [] Hm); [rewrite app_nil_r; exact O1|].
+    intros j Hj. apply (no_new_pending s s1); auto; [apply (i_bp _ _ _ I)|lia]. }
+  cbn. exists e, 1%nat, (set_pc M pos). rewrite Epos.
+  split; [exact Ee|]. split; [lia|]. split.
+  - cbn. rewrite (mstep_br art mhost codes fidx c consts Hcode M pos (r_idx _ _ _ _ _ _ _ _ _ _ _ R)); auto.
+    rewrite (r_pc _ _ _ _ _ _ _ _ _ _ _ R). exact Hc.
+  - split; [|apply frame_eq_set_pc]. eapply rel_jump; [exact R|reflexivity|apply cur_off_at_pc; lia].
+Qed.
+
+Lemma sim_br_if_known k pos s v v1 s1 rho st l cv vs M :
+  inv nl s v -> v_unreach v = None -> nth_error (c_bp s) k = Some (JKnown pos) ->
+  vstep cx v (OBasic (BBrIf k)) = Some v1 ->
+  handle_opcode cx s v1 Reachable (OBasic (BBrIf k)) = Some s1 ->
+  matches F s1 -> lenv s1 rho -> lows rho s -> small NR s1 -> rel s st l (VI32 cv :: vs) M ->
+  exists M1, nsteps 1 M = SNext M1 /\ frame_eq M M1 /\
+    if cv =? 0 then rel s1 st l vs M1
+    else exists e, nth_error rho k = Some e /\ 0 <= fst e /\ rel (at_pc (fst e)) st l [] M1.
+Proof.
+  intros I Hu Enth Ev Eh Hm Hle Hlo Sm R.
+  destruct (op_br_if_known nl cx s v v1 s1 k pos I Hu Enth Ev Eh) as (p & rest & Es & Pp & O1 & O2 & O3 & O4 & O5 & O6 & I1 & Hu1 & X1).
+  assert (Enth1 : nth_error (c_bp s1) k = Some (JKnown pos)) by (rewrite O2; exact Enth).
+  destruct (lenv_nth_known s1 rho k pos Hle Enth1) as (e & Ee & Epos).
+  destruct (lows_nth _ _ _ _ Hlo Ee) as [_ Hr]. rewrite Epos in Hr.
+  assert (Hc : code_at c (cur_off s) (IBrIf :: u32_bytes pos ++ i32_bytes (provider_idx p))).
+  { apply (code_from_F s1 (c_out s) _ [] Hm); [rewrite app_nil_r; exact O1|].
+    intros j Hj. apply (no_new_pending s s1); auto; [apply (i_bp _ _ _ I)|lia]. }
+  pose proof (r_stack _ _ _ _ _ _ _ _ _ _ _ R) as Hst. rewrite Es in Hst.
+  assert (Hpr : repr (denote consts M p) (VI32 cv) /\ Forall2 (fun p v => repr (denote consts M p) v) rest vs) by (inversion Hst; auto).
+  destruct Hpr as [Hp Hrest]. clear Hst.
+  assert (Sm0 : small NR s) by (eapply small_of_mono; [exact Sm|apply mono_eq; auto]).
+  pose proof (pwf_idx s p Sm0 (i_cwf _ _ _ I) Pp) as Hidx.
+  pose proof (mstep_br_if art mhost codes fidx c consts Hcode M pos (provider_idx p) (r_idx _ _ _ _ _ _ _ _ _ _ _ R)) as Hstep.
+  rewrite (r_pc _ _ _ _ _ _ _ _ _ _ _ R) in Hstep. specialize (Hstep Hc Hr Hidx).
+  change (get_local consts M (provider_idx p)) with (denote consts M p) in Hstep. rewrite (cond_repr _ _ Hp) in Hstep.
+  assert (Ecur : cur_off s1 = cur_off s + 9).
+  { unfold cur_off. rewrite O1, app_length. cbn [length]. rewrite app_length, u32_bytes_length, i32_bytes_length. lia. }
+  eexists. split; [cbn; rewrite Hstep; reflexivity|]. split; [apply frame_eq_set_pc|].
+  destruct (cv =? 0).
+  - eapply rel_pc; [exact R|rewrite O3; exact Hrest|exact Ecur].
+  - exists e. split; [exact Ee|]. rewrite Epos. split; [lia|].
+    eapply rel_jump; [exact R|reflexivity|apply cur_off_at_pc; lia].
+Qed.
+
+Lemma sim_unreachable s v v1 s1 rho st l vs M :
+  inv nl s v -> v_unreach v = None -> vstep cx v (OBasic BUnreachable) = Some v1 ->
+  handle_opcode cx s v1 Reachable (OBasic BUnreachable) = Some s1 ->
+  matches F s1 -> rel s st l vs M -> sim_res rho M s1 RTrap.
+Proof.
+  intros I Hu Ev Eh Hm R.
+  destruct (op_unreachable nl cx s v v1 s1 I Hu Ev Eh) as (O1 & O2 & O3 & O4 & O5 & O6 & I1 & Hu1 & X1).
+  assert (Hc : code_at c (cur_off s) [IUnreachable]).
+  { apply (code_from_F s1 (c_out s) [IUnreachable] [] Hm); [rewrite app_nil_r; exact O1|].
+    intros j Hj. apply (no_new_pending s s1); auto; [apply (i_bp _ _ _ I)|lia]. }
+  apply code_at_cons in Hc. destruct Hc as [H0 _]. rewrite <- (r_pc _ _ _ _ _ _ _ _ _ _ _ R) in H0.
+  cbn. exists 1%nat, TUnreachable. cbn.
+  rewrite (mstep_at art mhost codes fidx c consts Hcode M (r_idx _ _ _ _ _ _ _ _ _ _ _ R)), H0, N2Z.id. reflexivity.
+Qed.
 
 (** ** composing a block body with what follows the block *)
 Definition blk (r : res) : res :=
@@ -378,15 +480,26 @@ Lemma lenv_end sb sc locs rho lo :
   matches F sc -> cur_off sc = cur_off sb -> lenv sc rho -> lenv sb ((cur_off sb, lo) :: rho).
 Proof.
   intros E Rs Hm Ec Hl. unfold lenv. rewrite E. constructor; [|exact Hl].
-  exists locs. split; [reflexivity|]. intros loc Hin _. cbn [fst].
+  left. exists locs. split; [reflexivity|]. intros loc Hin _. cbn [fst].
   apply (target_from_F sc loc (cur_off sb) (Rs loc Hin) Hm). rewrite <- Ec. apply T_range. exact Hm.
 Qed.
 
 Lemma rel_nil_stack s st l vs M : rel s st l vs M -> c_stack s = [] -> vs = [].
 Proof. intros R E. pose proof (r_stack _ _ _ _ _ _ _ _ _ _ _ R) as H. rewrite E in H. inversion H. reflexivity. Qed.
 
-Lemma lows_cons T lo rho s sa : lows rho s -> cur_off s <= cur_off sa -> lo <= cur_off sa -> lows ((T, lo) :: rho) sa.
-Proof. intros H Hle Hlo. constructor; [exact Hlo|]. eapply lows_mono; eauto. Qed.
+Lemma lows_cons T lo rho s sa : lows rho s -> cur_off s <= cur_off sa -> lo <= cur_off sa -> 0 <= T < 4294967296 ->
+  lows ((T, lo) :: rho) sa.
+Proof. intros H Hle Hlo HT. constructor; [split; [exact Hlo|exact HT]|]. eapply lows_mono; eauto. Qed.
+
+Lemma lenv1_u l e : lenv1 (JUnknown l None) e -> forall loc, In loc l -> snd e <= loc -> get_u32 c loc = fst e.
+Proof. intros [(l0 & E & H)|E]; [inversion E; subst; exact H|discriminate E]. Qed.
+
+Lemma bp_sub_head_u l bp0 j bp1 :
+  bp_sub (JUnknown l None :: bp0) (j :: bp1) -> exists add, j = JUnknown (l ++ add) None.
+Proof.
+  intros H. inversion H as [|? ? ? ? [(l0 & add & E1 & E2)|(pos & E1 & _)]]; subst; [|discriminate E1].
+  inversion E1; subst. exists add. reflexivity.
+Qed.
 
 Section Cases.
 Variable n : nat.
@@ -413,7 +526,9 @@ Proof.
   assert (Pb : pres nl sa sb vb) by (eapply (pres_of body); eauto; left; exact A7).
   destruct (compile_cons _ _ _ _ _ _ _ Hc'') as (vc & sc & Evc & Ehc & Hcr).
   destruct (lvl_cons _ _ _ _ _ _ Hl'' Evc) as [_ Hlr].
-  destruct (op_end nl cx sb vb vc sc (p_inv _ _ _ _ Pb) Evc Ehc) as (locs & bp' & E1 & E2 & E3 & E4 & E5 & E6 & E7 & E8 & X3 & Rs & Ic & Huc).
+  destruct (op_end nl cx sb vb vc sc (p_inv _ _ _ _ Pb) Evc Ehc) as (j & bp' & E1 & E2 & E3 & E4 & E5 & E6 & E7 & E8 & X3 & Rs & Ic & Huc).
+  pose proof (p_bp _ _ _ _ Pb) as Hb0. rewrite A2, E1 in Hb0. destruct (bp_sub_head_u _ _ _ _ Hb0) as (add & ->).
+  cbn [locs_of] in Rs. set (locs := [] ++ add) in *.
   assert (Pr : pres nl sc s' v') by (eapply (pres_of rest); eauto; left; exact E7).
   assert (Es : c_stack s = []) by (destruct (c_stack s) eqn:E; [reflexivity|pose proof (i_len _ _ _ I) as L; rewrite E, Hk in L; discriminate]).
   pose proof (rel_nil_stack _ _ _ _ _ R Es) as Evs. subst vs.
@@ -435,7 +550,7 @@ Proof.
   eapply (sim_after_body (S f2) rho (cur_off sb) 0 sb sc s').
   - eapply (Hsim f2 ltac:(lia) body sa va vb sb); eauto.
     + left. exact A7.
-    + apply (lows_cons _ _ _ s); auto; try lia. unfold cur_off. lia.
+    + apply (lows_cons _ _ _ s); auto; try lia; [unfold cur_off; lia|apply T_range; assumption].
     + eapply small_of_mono; eauto.
     + eapply consts_ok_of_mono; eauto.
     + eapply rel_transfer; [exact R|rewrite A3; reflexivity|exact Oa].
@@ -452,8 +567,7 @@ Qed.
 Lemma bp_sub_head L bp0 locs bp1 :
   bp_sub (JUnknown [L] None :: bp0) (JUnknown locs None :: bp1) -> exists add, locs = L :: add.
 Proof.
-  intros H. inversion H as [|? ? ? ? (l0 & add & E1 & E2)]; subst. inversion E1; subst. inversion E2; subst.
-  exists add. reflexivity.
+  intros H. destruct (bp_sub_head_u _ _ _ _ H) as (add & E). inversion E; subst. exists add. reflexivity.
 Qed.
 
 Lemma case_if f bt thn els rest s v v' s' rho st l vs M :
@@ -479,7 +593,9 @@ Proof.
     assert (Pb : pres nl sa sb vb) by (eapply (pres_of thn); eauto; left; exact A6).
     destruct (compile_cons _ _ _ _ _ _ _ Hc'') as (vc & sc & Evc & Ehc & Hcr).
     destruct (lvl_cons _ _ _ _ _ _ Hl'' Evc) as [_ Hlr].
-    destruct (op_end nl cx sb vb vc sc (p_inv _ _ _ _ Pb) Evc Ehc) as (locs & bp' & E1 & E2 & E3 & E4 & E5 & E6 & E7 & E8 & X3 & Rs & Ic & Huc).
+    destruct (op_end nl cx sb vb vc sc (p_inv _ _ _ _ Pb) Evc Ehc) as (j & bp' & E1 & E2 & E3 & E4 & E5 & E6 & E7 & E8 & X3 & Rs & Ic & Huc).
+    pose proof (p_bp _ _ _ _ Pb) as Hb0. rewrite A2, E1 in Hb0. destruct (bp_sub_head_u _ _ _ _ Hb0) as (add & ->).
+    cbn [locs_of] in Rs. set (locs := [cur_off s + 5] ++ add) in *.
     assert (Pr : pres nl sc s' v') by (eapply (pres_of rest); eauto; left; exact E7).
     assert (Mc : matches F sc) by (eapply matches_ext; [apply (p_ext _ _ _ _ Pr)|exact Hm]).
     assert (Mb : matches F sb) by (eapply matches_ext; [exact X3|exact Mc]).
@@ -505,7 +621,7 @@ Proof.
                       | RNormal s1 l1 st1 => exec_seq (S (S f3)) s1 l1 st1 rest | r0 => r0 end)
         by (destruct (exec_seq f3 st l [] (if cv =? 0 then [] else thn)) as [? ? ?|[|?] ? ? ?| | | |]; reflexivity) end.
     assert (HL : In (cur_off s + 5) locs).
-    { pose proof (p_bp _ _ _ _ Pb) as Hb. rewrite A2, E1 in Hb. destruct (bp_sub_head _ _ _ _ Hb) as (add & ->). left. reflexivity. }
+    { subst locs. left. reflexivity. }
     assert (Hrest : forall st1 l1 M2, rel sc st1 l1 [] M2 -> sim_res rho M2 s' (exec_seq (S (S f3)) st1 l1 [] rest)).
     { intros st1 l1 M2 R2. eapply (Hsim (S (S f3)) Hf rest sc vc v' s'); eauto.
       - left. exact E7.
@@ -517,7 +633,7 @@ Proof.
     + eapply (sim_after_body (S (S f3)) rho (cur_off sb) 0 sb sc s').
       * eapply (Hsim f3 ltac:(lia) thn sa va vb sb); eauto.
         -- left. exact A6.
-        -- apply (lows_cons _ _ _ s); auto; try lia. unfold cur_off. lia.
+        -- apply (lows_cons _ _ _ s); auto; try lia; [unfold cur_off; lia|apply T_range; assumption].
         -- eapply small_of_mono; [exact Sm|exact Mob].
         -- eapply consts_ok_of_mono; [exact Co|exact Mob].
       * exact E3.
@@ -544,7 +660,9 @@ Proof.
     assert (Pd : pres nl sc sd vd) by (eapply (pres_of (e :: els)); eauto; left; exact E8).
     destruct (compile_cons _ _ _ _ _ _ _ Hcr') as (ve & se & Eve & Ehe & Hcr'').
     destruct (lvl_cons _ _ _ _ _ _ Hlr' Eve) as [_ Hlr''].
-    destruct (op_end nl cx sd vd ve se (p_inv _ _ _ _ Pd) Eve Ehe) as (locs & bp'' & G1 & G2 & G3 & G4 & G5 & G6 & G7 & G8 & X5 & Rs' & Ie & Hue).
+    destruct (op_end nl cx sd vd ve se (p_inv _ _ _ _ Pd) Eve Ehe) as (j & bp'' & G1 & G2 & G3 & G4 & G5 & G6 & G7 & G8 & X5 & Rs' & Ie & Hue).
+    pose proof (p_bp _ _ _ _ Pd) as Hd0. rewrite E2, G1 in Hd0. destruct (bp_sub_head_u _ _ _ _ Hd0) as (add0 & ->).
+    cbn [locs_of] in Rs'. set (locs := (more ++ [cur_off sb + 1]) ++ add0) in *.
     assert (Pr : pres nl se s' v') by (eapply (pres_of rest); eauto; left; exact G7).
     assert (Me : matches F se) by (eapply matches_ext; [apply (p_ext _ _ _ _ Pr)|exact Hm]).
     assert (Md : matches F sd) by (eapply matches_ext; [exact X5|exact Me]).
@@ -572,9 +690,9 @@ Proof.
     { pose proof (p_bp _ _ _ _ Pb) as Hb. rewrite A2, E1 in Hb. destruct (bp_sub_head _ _ _ _ Hb) as (add & Ea). inversion Ea. reflexivity. }
     subst first.
     assert (Lb : lenv sb ((cur_off sd, cur_off sa) :: rho)).
-    { unfold lenv in Lc |- *. rewrite E2 in Lc. rewrite E1. inversion Lc as [|? ? ? ? (l2 & El2 & Hl2) Htl]; subst.
-      constructor; [|exact Htl]. exists ((cur_off s + 5) :: more). split; [reflexivity|]. cbn [fst snd] in *. intros loc Hin Hge.
-      inversion El2; subst l2. apply Hl2; [|unfold cur_off in *; lia].
+    { unfold lenv in Lc |- *. rewrite E2 in Lc. rewrite E1. inversion Lc as [|? ? ? ? He Htl]; subst. pose proof (lenv1_u _ _ He) as Hl2.
+      constructor; [|exact Htl]. left. exists ((cur_off s + 5) :: more). split; [reflexivity|]. cbn [fst snd] in *. intros loc Hin Hge.
+      apply Hl2; [|unfold cur_off in *; lia].
       destruct Hin as [<-|Hin]; [lia|apply in_or_app; left; exact Hin]. }
     destruct vs as [|x vs]; [pose proof (r_stack _ _ _ _ _ _ _ _ _ _ _ R) as Hst; rewrite Es in Hst; inversion Hst|].
     destruct (sim_if s v va sa st l x vs M I Hu Hk Ev Eh Ma Sa R) as [-> Hstep].
@@ -599,7 +717,7 @@ Proof.
       eapply (sim_after_body (S (S f3)) rho (cur_off sd) 0 sd se s').
       * eapply (Hsim f3 ltac:(lia) (e :: els) sc vc vd sd); eauto.
         -- left. exact E8.
-        -- apply (lows_cons _ _ _ s); auto; try lia. unfold cur_off. lia.
+        -- apply (lows_cons _ _ _ s); auto; try lia; [unfold cur_off; lia|apply T_range; assumption].
         -- eapply small_of_mono; [exact Sm|exact Mod].
         -- eapply consts_ok_of_mono; [exact Co|exact Mod].
       * exact G3.
@@ -612,7 +730,7 @@ Proof.
       eapply (sim_after_body (S (S f3)) rho (cur_off sd) (cur_off sa) sb se s').
       * eapply (Hsim f3 ltac:(lia) thn sa va vb sb); eauto.
         -- left. exact A6.
-        -- apply (lows_cons _ _ _ s); auto; lia.
+        -- apply (lows_cons _ _ _ s); auto; try lia. apply T_range; assumption.
         -- eapply small_of_mono; [exact Sm|exact Mob].
         -- eapply consts_ok_of_mono; [exact Co|exact Mob].
       * exact E4.
@@ -626,12 +744,79 @@ Proof.
           rewrite <- app_assoc in Hy. apply in_app_iff in Hy. cbn in Hy. rewrite in_app_iff.
           destruct Hy as [Hy|[Hy|Hy]]; auto. right. left. right. exact Hy. }
         assert (Htgt : get_u32 c (cur_off sb + 1) = cur_off sd).
-        { unfold lenv in Lc. rewrite E2 in Lc. inversion Lc as [|? ? ? ? (l2 & El2 & Hl2) Htl]; subst. inversion El2; subst l2.
+        { unfold lenv in Lc. rewrite E2 in Lc. inversion Lc as [|? ? ? ? He Htl]; subst. pose proof (lenv1_u _ _ He) as Hl2.
           cbn [fst snd] in Hl2. apply Hl2; [apply in_or_app; right; left; reflexivity|unfold cur_off; lia]. }
         exists 1%nat, (set_pc M2 (cur_off sd)). split.
         -- cbn. rewrite (mstep_br2 M2 (r_idx _ _ _ _ _ _ _ _ _ _ _ R2)); rewrite (r_pc _ _ _ _ _ _ _ _ _ _ _ R2); [rewrite Htgt; reflexivity|exact Hcode1].
         -- split; [apply frame_eq_set_pc|]. eapply rel_jump; [exact R2|exact G4|exact G8].
       * exact Hrest.
+Qed.
+
+Lemma bp_sub_head_k pos bp0 j bp1 : bp_sub (JKnown pos :: bp0) (j :: bp1) -> j = JKnown pos.
+Proof. intros H. inversion H as [|? ? ? ? [(l0 & add & E1 & E2)|(p0 & E1 & E2)]]; subst; [discriminate E1|]. inversion E1; subst. reflexivity. Qed.
+
+Lemma case_loop f bt body rest s v v' s' rho st l vs M :
+  (f <= n)%nat ->
+  compile_ops cx (flatten (Loop bt body :: rest)) v s = Some (v', s') ->
+  lvl nl cx (flatten (Loop bt body :: rest)) v = true ->
+  inv nl s v -> v_unreach v = None ->
+  matches F s' -> lenv s' rho -> lows rho s -> small NR s' -> consts_ok consts s' ->
+  rel s st l vs M ->
+  sim_res rho M s' (match exec_instr f st l vs (Loop bt body) with
+                    | RNormal s1 l1 st1 => exec_seq f s1 l1 st1 rest | r => r end).
+Proof.
+  intros Hf Hc Hl I Hu Hm Hle Hlo Sm Co R.
+  rewrite flatten_loop in Hc, Hl.
+  destruct (compile_cons _ _ _ _ _ _ _ Hc) as (va & sa & Ev & Eh & Hc').
+  rewrite (reach_of_none v Hu) in Eh. destruct (lvl_cons _ _ _ _ _ _ Hl Ev) as [Hk Hl'].
+  destruct bt; [discriminate|]. unfold ctl_ok in Hk. rewrite Hu in Hk. apply Nat.eqb_eq in Hk.
+  destruct (op_loop nl cx s v va sa I Hu Hk Ev Eh) as (A1 & A2 & (A3 & A4 & A5 & A6) & A7 & Ia & Hua).
+  destruct (compile_app_inv _ _ _ _ _ _ _ Hc') as (vb & sb & Hcb & Hc'').
+  rewrite (lvl_app nl cx _ _ _ _ _ _ Hcb) in Hl'. apply andb_true_iff in Hl'. destruct Hl' as [Hlb Hl''].
+  assert (Pb : pres nl sa sb vb) by (eapply (pres_of body); eauto; left; exact A7).
+  destruct (compile_cons _ _ _ _ _ _ _ Hc'') as (vc & sc & Evc & Ehc & Hcr).
+  destruct (lvl_cons _ _ _ _ _ _ Hl'' Evc) as [_ Hlr].
+  destruct (op_end nl cx sb vb vc sc (p_inv _ _ _ _ Pb) Evc Ehc) as (j & bp' & E1 & E2 & E3 & E4 & E5 & E6 & E7 & E8 & X3 & Rs & Ic & Huc).
+  pose proof (p_bp _ _ _ _ Pb) as Hb0. rewrite A2, E1 in Hb0. pose proof (bp_sub_head_k _ _ _ _ Hb0) as Ej. subst j.
+  assert (Pr : pres nl sc s' v') by (eapply (pres_of rest); eauto; left; exact E7).
+  assert (Es : c_stack s = []) by (destruct (c_stack s) eqn:E; [reflexivity|pose proof (i_len _ _ _ I) as L; rewrite E, Hk in L; discriminate]).
+  pose proof (rel_nil_stack _ _ _ _ _ R Es) as Evs. subst vs.
+  assert (Mc : matches F sc) by (eapply matches_ext; [apply (p_ext _ _ _ _ Pr)|exact Hm]).
+  assert (Mb : matches F sb) by (eapply matches_ext; [exact X3|exact Mc]).
+  assert (Ma : matches F sa) by (eapply matches_ext; [apply (p_ext _ _ _ _ Pb)|exact Mb]).
+  assert (Moc : mono sc s') by apply (p_mono _ _ _ _ Pr).
+  assert (Mob : mono sb s') by (eapply mono_trans; [apply (mono_eq sb sc); auto|exact Moc]).
+  assert (Lc : lenv sc rho) by (eapply lenv_sub; [reflexivity|apply (p_bp _ _ _ _ Pr)|exact Hle]).
+  assert (Oa : cur_off sa = cur_off s) by (unfold cur_off; rewrite A1; reflexivity).
+  assert (Lb : lenv sb ((cur_off s, 0) :: rho)).
+  { unfold lenv. rewrite E1. constructor; [right; reflexivity|]. unfold lenv in Lc. rewrite E2 in Lc. exact Lc. }
+  assert (Hlo' : lows ((cur_off s, 0) :: rho) sa).
+  { apply (lows_cons _ _ _ s); auto; try lia; [unfold cur_off; lia|]. rewrite <- Oa. apply T_range. exact Ma. }
+  assert (Hrest : forall st1 l1 M2, rel sc st1 l1 [] M2 -> sim_res rho M2 s' (exec_seq f st1 l1 [] rest)).
+  { intros st1 l1 M2 R2. eapply (Hsim f Hf rest sc vc v' s'); eauto.
+    - left. exact E7.
+    - eapply lows_mono; [exact Hlo|]. rewrite E8. pose proof (ext_off _ _ (p_ext _ _ _ _ Pb)). lia. }
+  assert (Ra : rel sa st l [] M) by (eapply rel_transfer; [exact R|rewrite A3; reflexivity|exact Oa]).
+  clear R. revert st l M Ra.
+  assert (G : forall g, (g <= f)%nat -> forall st l M, rel sa st l [] M ->
+            sim_res rho M s' (match exec_instr g st l [] (Loop None body) with
+                              | RNormal s1 l1 st1 => exec_seq f s1 l1 st1 rest | r => r end)).
+  { induction g as [|g2 IHg]; intros Hg st l M Ra; [cbn; exact Logic.I|].
+    rewrite E_loop.
+    assert (Hb : sim_res ((cur_off s, 0) :: rho) M sb (exec_seq g2 st l [] body)).
+    { eapply (Hsim g2 ltac:(lia) body sa va vb sb); eauto.
+      - left. exact A7.
+      - eapply small_of_mono; [exact Sm|exact Mob].
+      - eapply consts_ok_of_mono; [exact Co|exact Mob]. }
+    destruct (exec_seq g2 st l [] body) as [st1 l1 vs1|[|k] st1 l1 vs1| | | |]; cbn [sim_res] in Hb |- *; auto.
+    - destruct Hb as (n1 & M1 & Hn & R1 & Fq).
+      pose proof (rel_nil_stack _ _ _ _ _ R1 E3) as Ev1. subst vs1. cbn [arity firstn app].
+      eapply sim_res_compose; [exact Hn|exact Fq|]. apply Hrest.
+      eapply rel_transfer; [exact R1|rewrite E3, E4; reflexivity|exact E8].
+    - destruct Hb as (e & n1 & M1 & Ee & H0 & Hn & R1 & Fq). cbn in Ee. inversion Ee; subst e. cbn [fst] in *.
+      eapply sim_res_compose; [exact Hn|exact Fq|]. apply IHg; [lia|].
+      eapply rel_transfer; [exact R1|rewrite A3, Es; reflexivity|rewrite Oa, cur_off_at_pc by exact H0; reflexivity]. }
+  intros st l M Ra. apply G; auto.
 Qed.
 End Cases.
 
@@ -669,20 +854,42 @@ Proof.
         destruct (compile_cons _ _ _ _ _ _ _ Hc) as (v1 & s1 & Ev & Eh & Hc').
         rewrite (reach_of_none v Hu) in Eh. destruct (lvl_cons _ _ _ _ _ _ Hl Ev) as [Hk Hl'].
         destruct b; try (unfold ctl_ok in Hk; rewrite Hu in Hk; rewrite Hcf in Hk; discriminate).
-        * (* br *)
-          destruct (op_br nl cx s v v1 s1 l0 I Hu Ev Eh) as (locs & Enth & O1 & O2 & O3 & O4 & O5 & O6 & I1 & Hu1 & X1).
+        * (* unreachable *)
+          destruct (op_unreachable nl cx s v v1 s1 I Hu Ev Eh) as (O1 & O2 & O3 & O4 & O5 & O6 & I1 & Hu1 & X1).
           rewrite (lvl_unreach_nil nl cx rest v1 Hu1 Hl') in Hc'. cbn in Hc'. inversion Hc'; subst v' s'.
-          destruct f as [|f2]; [cbn; exact Logic.I|]. rewrite E_br.
-          exact (sim_br l0 s v v1 s1 rho st l vs M I Hu Ev Eh Hm Hle Hlo R).
+          destruct f as [|f2]; [cbn; exact Logic.I|]. rewrite E_unreachable.
+          exact (sim_unreachable s v v1 s1 rho st l vs M I Hu Ev Eh Hm R).
+        * (* br *)
+          destruct (br_target _ _ _ _ Ev) as (fk & Ek). destruct (bp_target nl s v l0 fk I Ek) as [(locs & Enth)|(pos & Enth)].
+          -- destruct (op_br nl cx s v v1 s1 l0 locs I Hu Enth Ev Eh) as (O1 & O2 & O3 & O4 & O5 & O6 & I1 & Hu1 & X1).
+             rewrite (lvl_unreach_nil nl cx rest v1 Hu1 Hl') in Hc'. cbn in Hc'. inversion Hc'; subst v' s'.
+             destruct f as [|f2]; [cbn; exact Logic.I|]. rewrite E_br.
+             exact (sim_br l0 locs s v v1 s1 rho st l vs M I Hu Enth Ev Eh Hm Hle Hlo R).
+          -- destruct (op_br_known nl cx s v v1 s1 l0 pos I Hu Enth Ev Eh) as (O1 & O2 & O3 & O4 & O5 & O6 & I1 & Hu1 & X1).
+             rewrite (lvl_unreach_nil nl cx rest v1 Hu1 Hl') in Hc'. cbn in Hc'. inversion Hc'; subst v' s'.
+             destruct f as [|f2]; [cbn; exact Logic.I|]. rewrite E_br.
+             exact (sim_br_known l0 pos s v v1 s1 rho st l vs M I Hu Enth Ev Eh Hm Hle Hlo R).
         * (* br_if *)
-          destruct (op_br_if nl cx s v v1 s1 l0 I Hu Ev Eh) as (p & st0 & locs & Es & Pp & Enth & O1 & O2 & O3 & O4 & O5 & O6 & I1 & Hu1 & X1).
+          assert (Hbi : exists p st0, c_last s1 = None /\ ext s s1 /\ inv nl s1 v1 /\ v_unreach v1 = None /\ c_stack s = p :: st0 /\
+                   forall cv vs0, vs = VI32 cv :: vs0 -> matches F s1 -> lenv s1 rho -> small NR s1 ->
+                   exists Mx, nsteps 1 M = SNext Mx /\ frame_eq M Mx /\
+                     if cv =? 0 then rel s1 st l vs0 Mx
+                     else exists e, nth_error rho l0 = Some e /\ 0 <= fst e /\ rel (at_pc (fst e)) st l [] Mx).
+          { destruct (br_if_target _ _ _ _ Ev) as (fk & Ek). destruct (bp_target nl s v l0 fk I Ek) as [(locs & Enth)|(pos & Enth)].
+            - destruct (op_br_if nl cx s v v1 s1 l0 locs I Hu Enth Ev Eh) as (p & st0 & Es & Pp & O1 & O2 & O3 & O4 & O5 & O6 & I1 & Hu1 & X1).
+              exists p, st0. splits; auto. intros cv vs0 -> Hm1 Hl1 Hs1.
+              exact (sim_br_if l0 locs s v v1 s1 rho st l cv vs0 M I Hu Enth Ev Eh Hm1 Hl1 Hlo Hs1 R).
+            - destruct (op_br_if_known nl cx s v v1 s1 l0 pos I Hu Enth Ev Eh) as (p & st0 & Es & Pp & O1 & O2 & O3 & O4 & O5 & O6 & I1 & Hu1 & X1).
+              exists p, st0. splits; auto. intros cv vs0 -> Hm1 Hl1 Hs1.
+              exact (sim_br_if_known l0 pos s v v1 s1 rho st l cv vs0 M I Hu Enth Ev Eh Hm1 Hl1 Hlo Hs1 R). }
+          destruct Hbi as (p & st0 & O6 & X1 & I1 & Hu1 & Es & Hstep).
           assert (P2 : pres nl s1 s' v') by (eapply (pres_of rest); eauto; left; exact O6).
           assert (M1' : matches F s1) by (eapply matches_ext; [apply (p_ext _ _ _ _ P2)|exact Hm]).
           assert (L1 : lenv s1 rho) by (eapply lenv_sub; [reflexivity|apply (p_bp _ _ _ _ P2)|exact Hle]).
           assert (S1 : small NR s1) by (eapply small_of_mono; [exact Sm|apply (p_mono _ _ _ _ P2)]).
           destruct f as [|f2]; [cbn; exact Logic.I|].
           destruct vs as [|[cv|cv] vs]; try (cbn; exact Logic.I). rewrite E_br_if.
-          destruct (sim_br_if l0 s v v1 s1 rho st l cv vs M I Hu Ev Eh M1' L1 Hlo S1 R) as (Mx & Hn & Fq & Hcase).
+          destruct (Hstep cv vs eq_refl M1' L1 S1) as (Mx & Hn & Fq & Hcase).
           destruct (cv =? 0).
           -- eapply sim_res_compose; [exact Hn|exact Fq|].
              eapply (IH (S f2) ltac:(lia) rest s1 v1 v' s'); eauto.
@@ -690,7 +897,7 @@ Proof.
              ++ eapply lows_mono; [exact Hlo|apply ext_off; exact X1].
           -- destruct Hcase as (e & Ee & H0 & Re). cbn. exists e, 1%nat, Mx. auto.
       + eapply (case_block n IH f bt body rest s v v' s'); eauto; lia.
-      + unfold flatten in Hl. cbn [flat_map flatten_instr app lvl ctl_ok] in Hl. discriminate.
+      + eapply (case_loop n IH f bt body rest s v v' s'); eauto; lia.
       + eapply (case_if n IH f bt thn els rest s v v' s'); eauto; lia. }
   unfold SIM. intros is s v v' s' rho st l vs M Hc Hl I Hu Hr Hm Hle Hlo Sm Co R.
   destruct (span is) as [bs tl] eqn:Esp. destruct (span_spec _ _ _ Esp) as (Eis & Hok & Hcf).
